@@ -1056,4 +1056,755 @@ example : (nextSiblingPort C02.demoLang 8 pvRoot pvC true).map (fun r => (r.t, r
 example : laterOnPath C02.demoLang pvRoot [1, 0] = [(cwLeaf, 0), (cwLeaf, 0)] := rfl
 
 
+/-! ### `ts_node__prev_sibling` -/
+
+/-- The child scan / outer loop of `ts_node__prev_sibling(self, true)` for a non-empty `self`. -/
+abbrev psScan (lang : Lang) (fuel : Nat) (self : NodeRef) := prevSiblingPort.scan lang fuel self true false self.endByte
+abbrev psGo (lang : Lang) (fuel : Nat) (self : NodeRef) := prevSiblingPort.go lang fuel self true false self.endByte
+
+theorem psScan_nil (lang : Lang) (fuel : Nat) (self : NodeRef) (e : Option (NodeRef × Bool)) :
+    psScan lang fuel self [] e = (false, none, e) := rfl
+
+/-- What a child that is passed over leaves in `earlier_child`. -/
+def earlierStep (lang : Lang) (rc : RawChild) (e : Option (NodeRef × Bool)) : Option (NodeRef × Bool) :=
+  if rc.node.relevant lang true then some (rc.node, true)
+  else if rc.node.childCount > 0 then some (rc.node, false)
+  else e
+
+theorem psScan_cons (lang : Lang) (fuel : Nat) (self : NodeRef) (rc : RawChild) (rest : List RawChild) (e : Option (NodeRef × Bool)) :
+    psScan lang fuel self (rc :: rest) e =
+      (if rc.node.id == self.id then (false, some rc.node, e)
+       else if rc.posAfter.bytes > self.endByte then (true, some rc.node, e)
+       else if rc.posAfter.bytes == self.endByte then (true, some rc.node, e)
+       else psScan lang fuel self rest (earlierStep lang rc e)) := by
+  simp only [psScan, prevSiblingPort.scan, earlierStep, NodeRef.relChildCount, relevantChildCount, NodeRef.childCount,
+    Bool.not_false, Bool.true_or, Bool.and_true]
+  split
+  · rfl
+  · split
+    · rfl
+    · split
+      · rfl
+      · by_cases hr : rc.node.relevant lang true = true <;> by_cases hc : rc.node.t.kids.length > 0 <;>
+          by_cases hv : rc.node.t.data.visibleChildCount > 0 <;> simp [hr, hc, hv]
+
+/-- The last child that is relevant (`true`) or hidden with visible children (`false`). -/
+def lastEarlierRef (lang : Lang) : List RawChild → Option (NodeRef × Bool)
+  | [] => none
+  | rc :: rest =>
+    match lastEarlierRef lang rest with
+    | some r => some r
+    | none =>
+      if rc.node.relevant lang true then some (rc.node, true)
+      else if rc.node.childCount > 0 then some (rc.node, false)
+      else none
+
+theorem lastEarlierRef_cons (lang : Lang) (rc : RawChild) (rest : List RawChild) :
+    lastEarlierRef lang (rc :: rest) = (lastEarlierRef lang rest).or (earlierStep lang rc none) := by
+  rw [lastEarlierRef]
+  cases lastEarlierRef lang rest <;> simp [earlierStep]
+
+/-- Children that are not `self` and end before the end of `self` are passed over, the last
+relevant-or-populated one being remembered. -/
+theorem psScan_before (lang : Lang) (fuel : Nat) (self : NodeRef) :
+    ∀ (L M : List RawChild) (e : Option (NodeRef × Bool)),
+    (∀ rc ∈ L, rc.node.id ≠ self.id ∧ rc.posAfter.bytes < self.endByte) →
+    psScan lang fuel self (L ++ M) e = psScan lang fuel self M ((lastEarlierRef lang L).or e)
+  | [], M, e, _ => by simp [lastEarlierRef]
+  | rc :: rest, M, e, h => by
+    have h0 := h rc (by simp)
+    rw [List.cons_append, psScan_cons]
+    have h1 : (rc.node.id == self.id) = false := by simpa using h0.1
+    have h2 : ¬ (rc.posAfter.bytes > self.endByte) := by omega
+    have h3 : (rc.posAfter.bytes == self.endByte) = false := by simp; omega
+    simp only [h1, h2, h3, Bool.false_eq_true, if_false]
+    rw [psScan_before lang fuel self rest M _ (fun r hr => h r (by simp [hr]))]
+    congr 1
+    rw [lastEarlierRef_cons, Option.or_assoc]
+    congr 1
+    unfold earlierStep
+    split
+    · simp
+    · split <;> simp
+
+
+theorem lastEarlierRef_mem (lang : Lang) : ∀ (L : List RawChild) (r : NodeRef) (b : Bool),
+    lastEarlierRef lang L = some (r, b) → ∃ rc ∈ L, rc.node = r
+  | [], _, _, h => by simp [lastEarlierRef] at h
+  | rc :: rest, r, b, h => by
+    rw [lastEarlierRef] at h
+    cases hr : lastEarlierRef lang rest with
+    | some v =>
+      rw [hr] at h
+      simp only [Option.some.injEq] at h
+      subst h
+      obtain ⟨x, hx, hxr⟩ := lastEarlierRef_mem lang rest r b hr
+      exact ⟨x, by simp [hx], hxr⟩
+    | none =>
+      rw [hr] at h
+      simp only at h
+      split at h
+      · simp only [Option.some.injEq, Prod.mk.injEq] at h; exact ⟨rc, by simp, h.1⟩
+      · split at h
+        · simp only [Option.some.injEq, Prod.mk.injEq] at h; exact ⟨rc, by simp, h.1⟩
+        · simp at h
+
+/-- `lastEarlierRef` over the iterator's elements is `lastRel` over the raw children. -/
+theorem lastEarlierRef_go (lang : Lang) (n : NodeRef) (nk : Nat) : ∀ (kids : List Tree) (pos : Length) (si k : Nat),
+    (lastEarlierRef lang (rawChildren.go lang n n.t.data.productionId nk kids pos si k)).map (fun r => (r.1.t, r.1.alias, r.2)) =
+      (lastRel lang n.t.data.productionId kids si).map
+        (fun r => (r.1, (if r.1.data.extra then 0 else lang.aliasAt n.t.data.productionId r.2.1), r.2.2))
+  | [], _, _, _ => by simp [rawChildren.go, lastEarlierRef, lastRel]
+  | c :: rest, pos, si, k => by
+    rw [go_getElem_zero, lastEarlierRef, lastRel]
+    have ih := lastEarlierRef_go lang n nk rest
+      (length_add (if k > 0 then length_add pos c.data.padding else pos) c.data.size) (if c.data.extra then si else si + 1) (k + 1)
+    cases hl : lastEarlierRef lang (rawChildren.go lang n n.t.data.productionId nk rest
+        (length_add (if k > 0 then length_add pos c.data.padding else pos) c.data.size) (if c.data.extra then si else si + 1) (k + 1)) with
+    | some v =>
+      rw [hl] at ih
+      cases hr : lastRel lang n.t.data.productionId rest (if c.data.extra then si else si + 1) with
+      | none => rw [hr] at ih; simp at ih
+      | some w => rw [hr] at ih; simpa using ih
+    | none =>
+      rw [hl] at ih
+      cases hr : lastRel lang n.t.data.productionId rest (if c.data.extra then si else si + 1) with
+      | some w => rw [hr] at ih; simp at ih
+      | none =>
+        simp only [NodeRef.relevant, isRelevant, if_true, NodeRef.childCount]
+        have hcond : (c.data.visible || (if c.data.extra then 0 else lang.aliasAt n.t.data.productionId si) != 0) =
+            (c.data.visible || (!c.data.extra && lang.aliasAt n.t.data.productionId si != 0)) := by
+          by_cases hx : c.data.extra = true <;> simp [hx]
+        simp only [hcond]
+        have hv : (if c.kids.length > 0 then c.data.visibleChildCount else 0) = vcc c := by
+          unfold vcc
+          cases hk : c.kids <;> simp
+        rw [hv]
+        by_cases hvis : (c.data.visible || (!c.data.extra && lang.aliasAt n.t.data.productionId si != 0)) = true
+        · simp [hvis]
+        · have hvis' : (c.data.visible || (!c.data.extra && lang.aliasAt n.t.data.productionId si != 0)) = false := by simpa using hvis
+          simp only [hvis', Bool.false_eq_true, if_false]
+          by_cases hk : vcc c > 0 <;> simp [hk]
+
+theorem go_take (lang : Lang) (n : NodeRef) (pid nk : Nat) : ∀ (kids : List Tree) (pos : Length) (si k j : Nat),
+    (rawChildren.go lang n pid nk kids pos si k).take j = rawChildren.go lang n pid nk (kids.take j) pos si k
+  | _, _, _, _, 0 => by simp [rawChildren.go]
+  | [], _, _, _, _ + 1 => by simp [rawChildren.go]
+  | c :: rest, pos, si, k, j + 1 => by
+    rw [go_getElem_zero, List.take_succ_cons, List.take_succ_cons, go_getElem_zero, go_take lang n pid nk rest]
+
+theorem go_ids (lang : Lang) (n : NodeRef) (pid nk sid : Nat) : ∀ (kids : List Tree) (pos : Length) (si k : Nat),
+    noIdInL sid n.t.data.addr nk kids k = true → ∀ (j : Nat) (r : RawChild),
+    (rawChildren.go lang n pid nk kids pos si k)[j]? = some r → r.node.id ≠ sid ∧ noIdIn sid r.node.t = true
+  | [], _, _, _, _, _, _, h => by simp [rawChildren.go] at h
+  | c :: rest, pos, si, k, ha, j, r, h => by
+    rw [go_getElem_zero] at h
+    unfold noIdInL at ha
+    simp only [Bool.and_eq_true, bne_iff_ne, ne_eq] at ha
+    cases j with
+    | zero =>
+      simp only [List.getElem?_cons_zero, Option.some.injEq] at h
+      subst h
+      exact ⟨ha.1.1, ha.1.2⟩
+    | succ j' =>
+      simp only [List.getElem?_cons_succ] at h
+      exact go_ids lang n pid nk sid rest _ _ (k + 1) ha.2 j' r h
+
+
+/-- What one round of the outer loop of `ts_node__prev_sibling` does with the result of the scan. -/
+def psNext (lang : Lang) (fuel : Nat) (self : NodeRef) (f : Nat) (earlierNode : Option (NodeRef × Bool)) :
+    Bool → Option NodeRef → Option (NodeRef × Bool) → Option NodeRef
+  | true, stop, ech => psGo lang fuel self f stop (match ech with | some e => some e | none => earlierNode)
+  | false, _, some (ec, true) => some ec
+  | false, _, some (ec, false) => psGo lang fuel self f (some ec) earlierNode
+  | false, _, none =>
+    match earlierNode with
+    | some (en, true) => some en
+    | some (en, false) => psGo lang fuel self f (some en) none
+    | none => none
+
+theorem psGo_succ (lang : Lang) (fuel : Nat) (self : NodeRef) (f : Nat) (node : NodeRef) (en : Option (NodeRef × Bool))
+    (found : Bool) (stop : Option NodeRef) (ech : Option (NodeRef × Bool))
+    (h : psScan lang fuel self (rawChildren lang node) none = (found, stop, ech)) :
+    psGo lang fuel self (f + 1) (some node) en = psNext lang fuel self f en found stop ech := by
+  simp only [psGo, prevSiblingPort.go]
+  simp only [psScan] at h
+  rw [h]
+  cases found with
+  | true => rfl
+  | false =>
+    cases ech with
+    | none => rfl
+    | some l => obtain ⟨lc, b⟩ := l; cases b <;> rfl
+
+theorem raw_mem_index (lang : Lang) (n : NodeRef) (rc : RawChild) (h : rc ∈ rawChildren lang n) :
+    ∃ j : Nat, (rawChildren lang n)[j]? = some rc := List.mem_iff_getElem?.mp h
+
+/-- Descending into a hidden earlier node: the search returns its LAST visible child. -/
+theorem ps_descend (lang : Lang) (fuel : Nat) (self : NodeRef) (en : Option (NodeRef × Bool)) :
+    ∀ (f : Nat) (ec : NodeRef) (ps : Option Nat), ec.t.size ≤ f → Summarized lang ec.t → shapeOK ps ec.t = true →
+    noIdIn self.id ec.t = true → ec.endByte < self.endByte → vcc ec.t > 0 →
+    (psGo lang fuel self f (some ec) en).map (fun r => (r.t, r.alias)) = (enumChildren lang ec.t).getLast?
+  | 0, ec, _, hf, _, _, _, _, _ => by have := tree_size_pos ec.t; omega
+  | f + 1, ec, ps, hf, hs, hsh, hid, hend, hv => by
+    have hsz := sized_of_summarized lang ec.t hs
+    have hidL : noIdInL self.id ec.t.data.addr ec.t.kids.length ec.t.kids 0 = true := by
+      obtain ⟨t, al, id, st⟩ := ec
+      obtain ⟨d, kids⟩ := t
+      unfold noIdIn at hid
+      simpa [data_mk, kids_mk] using hid
+    have hall : ∀ rc ∈ rawChildren lang ec, (rc.node.id ≠ self.id ∧ rc.posAfter.bytes < self.endByte) ∧
+        rc.node.t ∈ ec.t.kids ∧ noIdIn self.id rc.node.t = true ∧ rc.node.endByte < self.endByte := by
+      intro rc hrc
+      obtain ⟨j, hj⟩ := raw_mem_index lang ec rc hrc
+      have hn := raw_child_nested lang ec hsz j rc hj
+      have hj2 := hj
+      simp only [rawChildren] at hj2
+      have hi := go_ids lang ec _ _ self.id _ _ _ 0 hidL j rc hj2
+      have he := go_elem lang _ _ _ _ _ _ _ j rc hj2
+      exact ⟨⟨hi.1, by omega⟩, List.mem_of_getElem? he.2.2, hi.2, by omega⟩
+    have hsc : psScan lang fuel self (rawChildren lang ec) none = (false, none, lastEarlierRef lang (rawChildren lang ec)) := by
+      have := psScan_before lang fuel self (rawChildren lang ec) [] none (fun rc hrc => (hall rc hrc).1)
+      simpa [psScan_nil] using this
+    rw [psGo_succ lang fuel self f ec en false none _ hsc]
+    have hmap := lastEarlierRef_go lang ec ec.t.kids.length ec.t.kids ec.start 0 0
+    have hraw : rawChildren lang ec = rawChildren.go lang ec ec.t.data.productionId ec.t.kids.length ec.t.kids ec.start 0 0 := rfl
+    rw [← hraw] at hmap
+    have hlast := enumKids_last lang ec.t.kids ec.t.data.productionId 0 (some ec.t.data.symbol)
+      (summarizedL_kids lang ec.t hs) (shapeOKL_kids ps ec.t hsh)
+    have hne' := enum_ne_nil_of_vcc lang ec.t ps hs hsh hv
+    have henum : enumChildren lang ec.t = enumKids lang ec.t.data.productionId ec.t.kids 0 := by
+      obtain ⟨t, al, id, st⟩ := ec
+      obtain ⟨d, kids⟩ := t
+      simp [enumChildren, data_mk, kids_mk]
+    rw [henum] at hne' ⊢
+    rw [hlast]
+    cases hfl : lastEarlierRef lang (rawChildren lang ec) with
+    | none =>
+      rw [hfl] at hmap
+      simp only [Option.map_none] at hmap
+      have : lastRel lang ec.t.data.productionId ec.t.kids 0 = none := by
+        cases hx : lastRel lang ec.t.data.productionId ec.t.kids 0 with
+        | none => rfl
+        | some v => rw [hx] at hmap; simp at hmap
+      rw [this] at hlast
+      simp only at hlast
+      exact absurd (List.getLast?_eq_none_iff.mp hlast) hne'
+    | some rb =>
+      obtain ⟨r, b⟩ := rb
+      obtain ⟨rc, hrc, hrcn⟩ := lastEarlierRef_mem lang _ r b hfl
+      have hp := hall rc hrc
+      rw [hfl] at hmap
+      simp only [Option.map_some] at hmap
+      cases hx : lastRel lang ec.t.data.productionId ec.t.kids 0 with
+      | none => rw [hx] at hmap; simp at hmap
+      | some v =>
+        obtain ⟨c, si', b'⟩ := v
+        rw [hx] at hmap
+        simp only [Option.map_some, Option.some.injEq, Prod.mk.injEq] at hmap
+        obtain ⟨h1, h2, h3⟩ := hmap
+        subst h3
+        cases b with
+        | true => simp only [psNext, Option.map_some, h1, h2]
+        | false =>
+          simp only [psNext]
+          have hmem := lastRel_mem lang _ _ 0 c si' false hx
+          have hvc := lastRel_false_vcc lang _ _ 0 c si' hx
+          have hk := tree_size_kids ec.t
+          have := ps_descend lang fuel self en f r (some ec.t.data.symbol)
+            (by rw [h1]; have := sizeList_mem _ c hmem; omega)
+            (by rw [h1]; exact summarized_of_mem lang _ c (summarizedL_kids lang ec.t hs) hmem)
+            (by rw [h1]; exact shapeOK_of_mem _ _ c (shapeOKL_kids ps ec.t hsh) hmem)
+            (by rw [← hrcn]; exact hp.2.2.1)
+            (by rw [← hrcn]; exact hp.2.2.2)
+            (by rw [h1]; exact hvc)
+          rw [this, h1]
+
+
+def resolveEarlier (lang : Lang) : Option (NodeRef × Bool) → Option (Tree × Nat)
+  | none => none
+  | some (en, true) => some (en.t, en.alias)
+  | some (en, false) => (enumChildren lang en.t).getLast?
+
+def EarlierGood (lang : Lang) (self : NodeRef) : Option (NodeRef × Bool) → Prop
+  | some (en, false) => (∃ ps, shapeOK ps en.t = true) ∧ Summarized lang en.t ∧ noIdIn self.id en.t = true ∧
+      en.endByte < self.endByte ∧ vcc en.t > 0
+  | _ => True
+
+theorem resolveEarlier_ne_none (lang : Lang) (self : NodeRef) (l : NodeRef × Bool) (hg : EarlierGood lang self (some l)) :
+    resolveEarlier lang (some l) ≠ none := by
+  obtain ⟨ln, b⟩ := l
+  cases b with
+  | true => simp [resolveEarlier]
+  | false =>
+    obtain ⟨⟨ps, hsh⟩, hs, _, _, hv⟩ := hg
+    have := enum_ne_nil_of_vcc lang ln.t ps hs hsh hv
+    simp only [resolveEarlier, ne_eq, List.getLast?_eq_none_iff]
+    exact this
+
+theorem sizeList_two_take (kids : List Tree) (k : Nat) (c x : Tree) (hk : kids[k]? = some c) (hx : x ∈ kids.take k) :
+    c.size + x.size ≤ Tree.sizeList kids := by
+  induction kids generalizing k with
+  | nil => simp at hk
+  | cons y rest ih =>
+    cases k with
+    | zero => simp at hx
+    | succ k' =>
+      simp only [List.take_succ_cons, List.mem_cons] at hx
+      simp only [Tree.sizeList]
+      rcases hx with hx | hx
+      · subst hx
+        have := sizeList_mem rest c (List.mem_of_getElem? (by simpa using hk))
+        omega
+      · have := ih k' (by simpa using hk) hx
+        omega
+
+/-- The part of the scan before the path's child `rc` (index `k`). -/
+theorem ps_earlier_part (lang : Lang) (fuel : Nat) (self n : NodeRef) (k : Nat) (rc : RawChild) (ps : Option Nat)
+    (hk : (rawChildren lang n)[k]? = some rc) (hs : Summarized lang n.t) (hsh : shapeOK ps n.t = true)
+    (hid : noIdInL self.id n.t.data.addr n.t.kids.length (n.t.kids.take k) 0 = true)
+    (hstart : rc.node.startByte < self.endByte) :
+    (∀ M e, psScan lang fuel self ((rawChildren lang n).take k ++ M) e =
+        psScan lang fuel self M ((lastEarlierRef lang ((rawChildren lang n).take k)).or e)) ∧
+    resolveEarlier lang (lastEarlierRef lang ((rawChildren lang n).take k)) =
+      (enumKids lang n.t.data.productionId (n.t.kids.take k) 0).getLast? ∧
+    EarlierGood lang self (lastEarlierRef lang ((rawChildren lang n).take k)) ∧
+    (∀ ec b, lastEarlierRef lang ((rawChildren lang n).take k) = some (ec, b) → ec.t ∈ n.t.kids.take k) := by
+  have hsz := sized_of_summarized lang n.t hs
+  have hL : (rawChildren lang n).take k =
+      rawChildren.go lang n n.t.data.productionId n.t.kids.length (n.t.kids.take k) n.start 0 0 := by
+    simp only [rawChildren]; exact go_take lang n _ _ _ _ _ _ k
+  have hel : ∀ r ∈ (rawChildren lang n).take k, (r.node.id ≠ self.id ∧ r.posAfter.bytes < self.endByte) ∧
+      r.node.t ∈ n.t.kids.take k ∧ noIdIn self.id r.node.t = true ∧ r.node.endByte < self.endByte := by
+    intro r hr
+    obtain ⟨j, hj⟩ := List.mem_iff_getElem?.mp hr
+    have hj' := hj
+    rw [List.getElem?_take] at hj'
+    have hjk : j < k := by
+      cases Nat.lt_or_ge j k with
+      | inl h => exact h
+      | inr h => simp [Nat.not_lt.mpr h] at hj'
+    simp only [hjk, if_true] at hj'
+    have ho := raw_ordered lang n j k r rc hjk hj' hk
+    have hn := raw_child_nested lang n hsz j r hj'
+    rw [hL] at hj
+    have hi := go_ids lang n _ _ self.id _ _ _ 0 hid j r hj
+    have he := go_elem lang _ _ _ _ _ _ _ j r hj
+    exact ⟨⟨hi.1, by omega⟩, List.mem_of_getElem? he.2.2, hi.2, by omega⟩
+  have hsk := summarizedL_take lang _ k (summarizedL_kids lang n.t hs)
+  have hshk := shapeOKL_take _ _ k (shapeOKL_kids ps n.t hsh)
+  have hlast := enumKids_last lang (n.t.kids.take k) n.t.data.productionId 0 (some n.t.data.symbol) hsk hshk
+  have hmap := lastEarlierRef_go lang n n.t.kids.length (n.t.kids.take k) n.start 0 0
+  rw [← hL] at hmap
+  refine ⟨fun M e => psScan_before lang fuel self _ M e (fun r hr => (hel r hr).1), ?_, ?_, ?_⟩
+  · rw [hlast]
+    cases hfl : lastEarlierRef lang ((rawChildren lang n).take k) with
+    | none =>
+      rw [hfl] at hmap
+      cases hx : lastRel lang n.t.data.productionId (n.t.kids.take k) 0 with
+      | none => rfl
+      | some v => rw [hx] at hmap; simp at hmap
+    | some rb =>
+      obtain ⟨r, b⟩ := rb
+      rw [hfl] at hmap
+      cases hx : lastRel lang n.t.data.productionId (n.t.kids.take k) 0 with
+      | none => rw [hx] at hmap; simp at hmap
+      | some v =>
+        obtain ⟨c, si', b'⟩ := v
+        rw [hx] at hmap
+        simp only [Option.map_some, Option.some.injEq, Prod.mk.injEq] at hmap
+        obtain ⟨h1, h2, h3⟩ := hmap
+        subst h3
+        cases b <;> simp [resolveEarlier, h1, h2]
+  · cases hfl : lastEarlierRef lang ((rawChildren lang n).take k) with
+    | none => trivial
+    | some rb =>
+      obtain ⟨r, b⟩ := rb
+      cases b with
+      | true => trivial
+      | false =>
+        obtain ⟨x, hx, hxr⟩ := lastEarlierRef_mem lang _ r false hfl
+        have hp := hel x hx
+        rw [hxr] at hp
+        have hmem : r.t ∈ n.t.kids := List.mem_of_mem_take hp.2.1
+        rw [hfl] at hmap
+        cases hfr : lastRel lang n.t.data.productionId (n.t.kids.take k) 0 with
+        | none => rw [hfr] at hmap; simp at hmap
+        | some v =>
+          obtain ⟨c, si', b'⟩ := v
+          rw [hfr] at hmap
+          simp only [Option.map_some, Option.some.injEq, Prod.mk.injEq] at hmap
+          obtain ⟨h1, _, h3⟩ := hmap
+          subst h3
+          have hvc := lastRel_false_vcc lang _ _ _ c si' hfr
+          exact ⟨⟨_, shapeOK_of_mem _ _ r.t (shapeOKL_kids ps n.t hsh) hmem⟩,
+            summarized_of_mem lang _ r.t (summarizedL_kids lang n.t hs) hmem, hp.2.2.1, hp.2.2.2, by rw [h1]; exact hvc⟩
+  · intro ec b hfl
+    obtain ⟨x, hx, hxr⟩ := lastEarlierRef_mem lang _ ec b hfl
+    have hp := hel x hx
+    rw [hxr] at hp
+    exact hp.2.1
+
+
+/-- The outer loop of `ts_node__prev_sibling` along the path `n ⟶ self`. -/
+theorem ps_levels (lang : Lang) (fuel : Nat) (self : NodeRef) (hself : self.startByte < self.endByte) :
+    ∀ (q : List Nat) (f : Nat) (n : NodeRef) (en : Option (NodeRef × Bool)) (ps : Option Nat), q ≠ [] →
+    n.t.size + laterNeed en ≤ f → Summarized lang n.t → shapeOK ps n.t = true → nodeAt lang n q = some self →
+    psPathOK lang self n q = true → EarlierGood lang self en →
+    (psGo lang fuel self f (some n) en).map (fun r => (r.t, r.alias)) =
+      ((earlierOnPath lang n q).getLast?).or (resolveEarlier lang en)
+  | [], _, _, _, _, h, _, _, _, _, _, _ => absurd rfl h
+  | k :: rest, 0, n, _, _, _, hf, _, _, _, _, _ => by have := tree_size_pos n.t; omega
+  | k :: rest, f + 1, n, en, ps, _, hf, hs, hsh, hat, hok, hg => by
+    obtain ⟨rc, hk, hat'⟩ := nodeAt_cons lang n self k rest hat
+    have hsz := sized_of_summarized lang n.t hs
+    have hn := raw_child_nested lang n hsz k rc hk
+    have hd := nodeAt_nested lang rest rc.node self hn.2.2.2 hat'
+    simp only [psPathOK, hk, Bool.and_eq_true] at hok
+    obtain ⟨hscan, hres, heg, hemem⟩ := ps_earlier_part lang fuel self n k rc ps hk hs hsh hok.1 (by omega)
+    have hk2 := hk
+    simp only [rawChildren] at hk2
+    have hkid := (go_elem lang _ _ _ _ _ _ _ k rc hk2).2.2
+    have hcmem : rc.node.t ∈ n.t.kids := List.mem_of_getElem? hkid
+    have hnsize := tree_size_kids n.t
+    have hsplit : rawChildren lang n = (rawChildren lang n).take k ++ rc :: (rawChildren lang n).drop (k + 1) := by
+      rw [← drop_eq_cons _ k rc hk, List.take_append_drop]
+    have hsc0 : psScan lang fuel self (rawChildren lang n) none =
+        psScan lang fuel self (rc :: (rawChildren lang n).drop (k + 1)) (lastEarlierRef lang ((rawChildren lang n).take k)) := by
+      have := hscan (rc :: (rawChildren lang n).drop (k + 1)) none
+      rw [← hsplit] at this
+      simpa using this
+    simp only [earlierOnPath, hk, List.getLast?_append, Option.or_assoc]
+    cases rest with
+    | nil =>
+      -- last level: the path's child is self, the loop breaks without "found"
+      simp only [nodeAt, Option.some.injEq] at hat'
+      have hsc : psScan lang fuel self (rawChildren lang n) none =
+          (false, some rc.node, lastEarlierRef lang ((rawChildren lang n).take k)) := by
+        rw [hsc0, psScan_cons]; simp [hat']
+      rw [psGo_succ lang fuel self f n en false _ _ hsc]
+      simp only [earlierOnPath, List.getLast?_nil, Option.none_or]
+      rw [← hres]
+      cases hl : lastEarlierRef lang ((rawChildren lang n).take k) with
+      | none =>
+        simp only [resolveEarlier, Option.none_or, psNext]
+        cases en with
+        | none => rfl
+        | some l =>
+          obtain ⟨ln, b⟩ := l
+          cases b with
+          | true => rfl
+          | false =>
+            simp only [resolveEarlier]
+            obtain ⟨⟨ps', hsh'⟩, hs', hid', hend', hv'⟩ := hg
+            exact ps_descend lang fuel self none f ln ps' (by simp only [laterNeed] at hf; omega) hs' hsh' hid' hend' hv'
+      | some l =>
+        rw [hl] at heg
+        have hnn := resolveEarlier_ne_none lang self l heg
+        rw [or_of_ne_none _ _ hnn]
+        obtain ⟨lc, b⟩ := l
+        cases b with
+        | true => rfl
+        | false =>
+          simp only [psNext, resolveEarlier]
+          obtain ⟨⟨ps', hsh'⟩, hs', hid', hend', hv'⟩ := heg
+          have hm := sizeList_mem _ _ (List.mem_of_mem_take (hemem lc false hl))
+          exact ps_descend lang fuel self en f lc ps' (by omega) hs' hsh' hid' hend' hv'
+    | cons k' rest' =>
+      simp only [List.isEmpty_cons, Bool.false_or, Bool.and_eq_true, bne_iff_ne, ne_eq] at hok
+      have hsc : psScan lang fuel self (rawChildren lang n) none =
+          (true, some rc.node, lastEarlierRef lang ((rawChildren lang n).take k)) := by
+        rw [hsc0, psScan_cons]
+        have h1 : (rc.node.id == self.id) = false := by simpa using hok.2.1
+        simp only [h1, Bool.false_eq_true, if_false]
+        by_cases hgt : rc.posAfter.bytes > self.endByte
+        · simp [hgt]
+        · have : (rc.posAfter.bytes == self.endByte) = true := by simp; omega
+          simp [hgt, this]
+      rw [psGo_succ lang fuel self f n en true _ _ hsc]
+      simp only [psNext]
+      have hsc' := summarized_of_mem lang _ rc.node.t (summarizedL_kids lang n.t hs) hcmem
+      have hshc' := shapeOK_of_mem _ _ rc.node.t (shapeOKL_kids ps n.t hsh) hcmem
+      have hcs := sizeList_mem _ _ hcmem
+      cases hl : lastEarlierRef lang ((rawChildren lang n).take k) with
+      | none =>
+        rw [hl] at hres
+        simp only [resolveEarlier] at hres
+        rw [← hres]
+        simp only [Option.none_or]
+        exact ps_levels lang fuel self hself (k' :: rest') f rc.node en _ (by simp) (by omega) hsc' hshc' hat' hok.2.2 hg
+      | some l =>
+        rw [hl] at heg hres
+        have hnn := resolveEarlier_ne_none lang self l heg
+        rw [← hres, or_of_ne_none _ (resolveEarlier lang en) hnn]
+        have hfuel : rc.node.t.size + laterNeed (some l) ≤ f := by
+          obtain ⟨lc, b⟩ := l
+          cases b with
+          | true => simp only [laterNeed]; omega
+          | false =>
+            simp only [laterNeed]
+            have := sizeList_two_take n.t.kids k rc.node.t lc.t hkid (hemem lc false hl)
+            omega
+        exact ps_levels lang fuel self hself (k' :: rest') f rc.node (some l) _ (by simp) hfuel hsc' hshc' hat' hok.2.2 heg
+
+/-- **prev_sibling_spec_partial.**  Let `P` be what `ts_node_parent(self)` returns and `q ≠ []` a path
+of raw child indices `P ⟶ self`.  If `self` is NON-EMPTY, the subtree of `P` is summarized and
+parser-shaped, and `psPathOK` holds (the slot id of `self` does not occur among the earlier siblings
+along the path, inside them, or on the path itself), then the port of `ts_node_prev_sibling(self)`
+returns the LAST element of `earlierOnPath P q` — the visible nodes before `self` in `P`, hidden
+nodes replaced by their visible children — and null iff that list is empty.  No zero-width
+hypothesis about OTHER nodes is needed: only `self` must be non-empty (finding
+`C06-prev-sibling-zero-width` is about an empty `self`). -/
+theorem prev_sibling_spec_partial (lang : Lang) (fuel : Nat) (root self P : NodeRef) (q : List Nat) (ps : Option Nat)
+    (hpar : nodeParent lang fuel root self = some P) (hq : q ≠ []) (hf : P.t.size ≤ fuel + 1)
+    (hs : Summarized lang P.t) (hsh : shapeOK ps P.t = true) (hat : nodeAt lang P q = some self)
+    (hself : self.startByte < self.endByte) (hok : psPathOK lang self P q = true) :
+    (prevSiblingPort lang fuel root self true).map (fun r => (r.t, r.alias)) = (earlierOnPath lang P q).getLast? := by
+  unfold prevSiblingPort
+  have he : (self.t.totalBytes == 0) = false := by
+    simp only [NodeRef.startByte, NodeRef.endByte] at hself
+    simp [Tree.totalBytes]; omega
+  simp only [he, hpar]
+  have := ps_levels lang fuel self hself q (fuel + 1) P none ps hq (by simp only [laterNeed]; omega) hs hsh hat hok trivial
+  simpa [resolveEarlier] using this
+
+theorem prev_sibling_spec_from_root (lang : Lang) (fuel : Nat) (root self : NodeRef) (path q : List Nat) (ps : Option Nat)
+    (hp : path ≠ []) (hfp : path.length ≤ fuel) (hsr : Sized root.t) (hatr : nodeAt lang root path = some self)
+    (hself : self.startByte < self.endByte) (hroot : root.id ≠ self.id) (hokp : pathOK lang self.id root path = true)
+    (hq : q ≠ []) (hf : (parentOnPath lang root root path).t.size ≤ fuel + 1)
+    (hs : Summarized lang (parentOnPath lang root root path).t) (hsh : shapeOK ps (parentOnPath lang root root path).t = true)
+    (hat : nodeAt lang (parentOnPath lang root root path) q = some self)
+    (hok : psPathOK lang self (parentOnPath lang root root path) q = true) :
+    (prevSiblingPort lang fuel root self true).map (fun r => (r.t, r.alias)) =
+      (earlierOnPath lang (parentOnPath lang root root path) q).getLast? :=
+  prev_sibling_spec_partial lang fuel root self _ q ps
+    (parent_spec_partial lang fuel root self path hp hfp hsr hatr hself hroot hokp) hq hf hs hsh hat hself hok
+
+/-- On the demo tree: the previous sibling of `c` (second child of the hidden `h`) is `v`; the
+previous sibling of `v` (FIRST child of `h`) is the leaf `a` that precedes `h` in the root. -/
+example : (prevSiblingPort C02.demoLang 8 pvRoot pvC true).map (fun r => (r.t, r.alias)) = some (pvV, 0) := by
+  rw [prev_sibling_spec_from_root C02.demoLang 8 pvRoot pvC [1, 1] [1, 1] none (by simp) (by simp) pvRoot_sized rfl
+    (by decide) (by decide) (by decide) (by simp) (by decide) pvRoot_summarized pvRoot_shape rfl (by decide)]
+  rfl
+example : (prevSiblingPort C02.demoLang 8 pvRoot pvVRef true).map (fun r => (r.t, r.alias)) = some (cwLeaf, 0) := by
+  rw [prev_sibling_spec_from_root C02.demoLang 8 pvRoot pvVRef [1, 0] [1, 0] none (by simp) (by simp) pvRoot_sized rfl
+    (by decide) (by decide) (by decide) (by simp) (by decide) pvRoot_summarized pvRoot_shape rfl (by decide)]
+  rfl
+
+
+/-! ### `ts_node__first_child_for_byte` -/
+
+abbrev fcbLoop (lang : Lang) (goal : Nat) := firstChildForBytePort.loop lang goal true
+
+theorem fcbNode_eq (lang : Lang) (goal : Nat) (t : Tree) (start : Length) :
+    fcbNode lang goal t start = fcbKids lang goal t.data.productionId t.data.addr t.kids.length t.kids start 0 0 := by
+  obtain ⟨d, k⟩ := t; simp [fcbNode, data_mk, kids_mk]
+theorem ndeNode_eq (lang : Lang) (goal : Nat) (t : Tree) (start : Length) :
+    ndeNode lang goal t start = ndeKids lang goal t.data.productionId t.data.addr t.kids.length t.kids start 0 0 := by
+  obtain ⟨d, k⟩ := t; simp [ndeNode, data_mk, kids_mk]
+
+theorem fcbLoop_cons (lang : Lang) (goal f : Nat) (rc : RawChild) (rest : List RawChild) (saved : Option (List RawChild)) :
+    fcbLoop lang goal (f + 1) (rc :: rest) saved =
+      (if rc.node.endByte > goal then
+        (if rc.node.relevant lang true then some rc.node
+         else if rc.node.childCount > 0 then
+           fcbLoop lang goal f (rawChildren lang rc.node) (if rc.k + 1 < rc.node.t.kids.length then some rest else saved)
+         else fcbLoop lang goal f rest saved)
+       else fcbLoop lang goal f rest saved) := rfl
+
+/-- Without dead ends the loop of the C function finds what the plain recursion finds. -/
+theorem fcb_loop_some (lang : Lang) (goal : Nat) : ∀ (f : Nat) (n : NodeRef) (kids : List Tree) (pos : Length) (si k : Nat)
+    (saved : Option (List RawChild)) (r : NodeRef), Tree.sizeList kids < f →
+    ndeKids lang goal n.t.data.productionId n.t.data.addr n.t.kids.length kids pos si k = true →
+    fcbKids lang goal n.t.data.productionId n.t.data.addr n.t.kids.length kids pos si k = some r →
+    fcbLoop lang goal f (rawChildren.go lang n n.t.data.productionId n.t.kids.length kids pos si k) saved = some r
+  | 0, _, _, _, _, _, _, _, hf, _, _ => by omega
+  | f + 1, n, [], _, _, _, _, _, _, _, h => by simp [fcbKids] at h
+  | f + 1, n, c :: rest, pos, si, k, saved, r, hf, hnde, h => by
+    rw [go_getElem_zero, fcbLoop_cons]
+    unfold fcbKids at h
+    unfold ndeKids at hnde
+    simp only at h hnde ⊢
+    simp only [Tree.sizeList] at hf
+    have hcs := tree_size_kids c
+    have hpos := tree_size_pos c
+    generalize (if k > 0 then length_add pos c.data.padding else pos) = cstart at h hnde ⊢
+    generalize (if c.data.extra = true then 0 else lang.aliasAt n.t.data.productionId si) = al at h hnde ⊢
+    generalize (if c.data.extra = true then si else si + 1) = si' at h hnde ⊢
+    by_cases hend : ({ t := c, alias := al, id := slotId n.t.data.addr n.t.kids.length k, start := cstart } : NodeRef).endByte > goal
+    · simp only [hend, if_true] at h hnde ⊢
+      by_cases hrel : ({ t := c, alias := al, id := slotId n.t.data.addr n.t.kids.length k, start := cstart } : NodeRef).relevant lang true = true
+      · simp only [hrel, if_true] at h ⊢
+        exact h
+      · simp only [hrel, if_false, Bool.false_eq_true] at h hnde ⊢
+        by_cases hcc : ({ t := c, alias := al, id := slotId n.t.data.addr n.t.kids.length k, start := cstart } : NodeRef).childCount > 0
+        · simp only [hcc, if_true, Bool.and_eq_true] at h hnde ⊢
+          obtain ⟨r', hr'⟩ := Option.isSome_iff_exists.mp hnde.1
+          rw [hr'] at h
+          simp only [Option.some.injEq] at h
+          subst h
+          rw [fcbNode_eq] at hr'
+          have hn2 := hnde.2
+          rw [ndeNode_eq] at hn2
+          exact fcb_loop_some lang goal f ⟨c, al, slotId n.t.data.addr n.t.kids.length k, cstart⟩ c.kids cstart 0 0 _ r' (by omega) hn2 hr'
+        · simp only [hcc, if_false] at h hnde ⊢
+          exact fcb_loop_some lang goal f n rest _ _ _ saved r (by omega) hnde h
+    · simp only [hend, if_false] at h hnde ⊢
+      exact fcb_loop_some lang goal f n rest _ _ _ saved r (by omega) hnde h
+
+/-- … and returns null when the plain recursion finds nothing. -/
+theorem fcb_loop_none (lang : Lang) (goal : Nat) : ∀ (f : Nat) (n : NodeRef) (kids : List Tree) (pos : Length) (si k : Nat),
+    ndeKids lang goal n.t.data.productionId n.t.data.addr n.t.kids.length kids pos si k = true →
+    fcbKids lang goal n.t.data.productionId n.t.data.addr n.t.kids.length kids pos si k = none →
+    fcbLoop lang goal f (rawChildren.go lang n n.t.data.productionId n.t.kids.length kids pos si k) none = none
+  | 0, _, _, _, _, _, _, _ => rfl
+  | f + 1, n, [], _, _, _, _, _ => by simp [rawChildren.go, fcbLoop, firstChildForBytePort.loop]
+  | f + 1, n, c :: rest, pos, si, k, hnde, h => by
+    rw [go_getElem_zero, fcbLoop_cons]
+    unfold fcbKids at h
+    unfold ndeKids at hnde
+    simp only at h hnde ⊢
+    generalize (if k > 0 then length_add pos c.data.padding else pos) = cstart at h hnde ⊢
+    generalize (if c.data.extra = true then 0 else lang.aliasAt n.t.data.productionId si) = al at h hnde ⊢
+    generalize (if c.data.extra = true then si else si + 1) = si' at h hnde ⊢
+    by_cases hend : ({ t := c, alias := al, id := slotId n.t.data.addr n.t.kids.length k, start := cstart } : NodeRef).endByte > goal
+    · simp only [hend, if_true] at h hnde ⊢
+      by_cases hrel : ({ t := c, alias := al, id := slotId n.t.data.addr n.t.kids.length k, start := cstart } : NodeRef).relevant lang true = true
+      · simp [hrel] at h
+      · simp only [hrel, if_false, Bool.false_eq_true] at h hnde ⊢
+        by_cases hcc : ({ t := c, alias := al, id := slotId n.t.data.addr n.t.kids.length k, start := cstart } : NodeRef).childCount > 0
+        · simp only [hcc, if_true, Bool.and_eq_true] at h hnde
+          obtain ⟨r', hr'⟩ := Option.isSome_iff_exists.mp hnde.1
+          rw [hr'] at h
+          simp at h
+        · simp only [hcc, if_false] at h hnde ⊢
+          exact fcb_loop_none lang goal f n rest _ _ _ hnde h
+    · simp only [hend, if_false] at h hnde ⊢
+      exact fcb_loop_none lang goal f n rest _ _ _ hnde h
+
+/-- **first_child_for_byte_spec_partial.**  If the search never runs into a dead end (`ndeNode`:
+every hidden child it enters contains a visible child ending after `goal`), the port of
+`ts_node_first_child_for_byte(self, goal)` returns what the plain recursive search `fcbNode` returns:
+the first visible child, in order, that ends after `goal`. -/
+theorem first_child_for_byte_spec_partial (lang : Lang) (fuel : Nat) (self : NodeRef) (goal : Nat)
+    (hf : self.t.size ≤ 2 * fuel + 4) (hnde : ndeNode lang goal self.t self.start = true) :
+    firstChildForBytePort lang fuel self goal true = fcbNode lang goal self.t self.start := by
+  unfold firstChildForBytePort
+  rw [ndeNode_eq] at hnde
+  rw [fcbNode_eq]
+  have hk := tree_size_kids self.t
+  cases h : fcbKids lang goal self.t.data.productionId self.t.data.addr self.t.kids.length self.t.kids self.start 0 0 with
+  | none => exact fcb_loop_none lang goal _ self _ _ 0 0 hnde h
+  | some r => exact fcb_loop_some lang goal _ self _ _ 0 0 none r (by omega) hnde h
+
+
+/-- On the demo tree, goal byte 1: the leaf `a` ends at 1, the hidden `h` ends after it and is
+entered, its first child `v` (slot id 1984) ends at 2 — no dead end, and the theorem computes. -/
+example : (firstChildForBytePort C02.demoLang 8 pvRoot 1 true).map (·.id) = some 1984 := by
+  rw [first_child_for_byte_spec_partial C02.demoLang 8 pvRoot 1 (by decide) (by decide)]
+  decide
+
+/-! ### `ts_node__descendant_for_byte_range` -/
+
+abbrev dfrScan (rs re : Nat) := descendantForByteRangePort.scan rs re
+
+theorem dfrScan_cons (rs re : Nat) (rc : RawChild) (rest : List RawChild) :
+    dfrScan rs re (rc :: rest) =
+      (if rc.posAfter.bytes < re then dfrScan rs re rest
+       else if (if (rc.node.startByte == rc.posAfter.bytes) = true then rc.posAfter.bytes < rs else rc.posAfter.bytes ≤ rs) then dfrScan rs re rest
+       else if rs < rc.node.startByte then none
+       else some rc.node) := by
+  simp only [dfrScan, descendantForByteRangePort.scan]
+
+/-- The iterator's positions: every element starts at or after the running position and ends at
+or after its start; the next one continues from its end. -/
+def StartsFrom : Nat → List RawChild → Prop
+  | _, [] => True
+  | p, rc :: rest => p ≤ rc.node.startByte ∧ rc.node.startByte ≤ rc.posAfter.bytes ∧ StartsFrom rc.posAfter.bytes rest
+
+theorem go_startsFrom (lang : Lang) (n : NodeRef) (pid nk : Nat) : ∀ (kids : List Tree) (pos : Length) (si k : Nat),
+    StartsFrom pos.bytes (rawChildren.go lang n pid nk kids pos si k)
+  | [], _, _, _ => by simp [rawChildren.go, StartsFrom]
+  | c :: rest, pos, si, k => by
+    rw [go_getElem_zero]
+    unfold StartsFrom
+    refine ⟨?_, ?_, go_startsFrom lang n pid nk rest _ _ _⟩
+    · simp only [NodeRef.startByte]; split <;> simp [length_add_bytes]
+    · simp only [NodeRef.startByte, length_add_bytes]; omega
+
+theorem startsFrom_ge : ∀ (L : List RawChild) (p : Nat), StartsFrom p L → ∀ x ∈ L, p ≤ x.node.startByte
+  | [], _, _, _, hx => by simp at hx
+  | rc :: rest, p, h, x, hx => by
+    unfold StartsFrom at h
+    simp only [List.mem_cons] at hx
+    rcases hx with hx | hx
+    · subst hx; exact h.1
+    · have := startsFrom_ge rest _ h.2.2 x hx; omega
+
+theorem find_none_of_all {α : Type} (p : α → Bool) (l : List α) (h : ∀ x ∈ l, p x = false) : l.find? p = none := by
+  simp only [List.find?_eq_none]
+  intro x hx
+  simp [h x hx]
+
+/-- For a NON-EMPTY range the child scan of the C function (three tests, two `continue`s and a
+`break`) selects the first raw child that spans the range. -/
+theorem dfr_scan_eq (rs re : Nat) (hr : rs < re) : ∀ (L : List RawChild) (p : Nat), StartsFrom p L →
+    dfrScan rs re L = (L.find? (spans rs re)).map (·.node)
+  | [], _, _ => by simp [dfrScan, descendantForByteRangePort.scan]
+  | rc :: rest, p, h => by
+    unfold StartsFrom at h
+    rw [dfrScan_cons, List.find?_cons]
+    by_cases h1 : rc.posAfter.bytes < re
+    · have : spans rs re rc = false := by simp [spans]; intro _; omega
+      simp only [h1, if_true, this]
+      exact dfr_scan_eq rs re hr rest _ h.2.2
+    · simp only [h1, if_false]
+      have h2 : ¬ (if (rc.node.startByte == rc.posAfter.bytes) = true then rc.posAfter.bytes < rs else rc.posAfter.bytes ≤ rs) := by
+        split <;> omega
+      simp only [h2, if_false]
+      by_cases h3 : rs < rc.node.startByte
+      · have hsp : spans rs re rc = false := by simp [spans]; omega
+        simp only [h3, if_true, hsp]
+        rw [find_none_of_all]
+        · rfl
+        · intro x hx
+          have := startsFrom_ge rest _ h.2.2 x hx
+          simp only [spans, Bool.and_eq_false_iff, decide_eq_false_iff_not]
+          left; omega
+      · have hsp : spans rs re rc = true := by simp [spans]; omega
+        simp [h3, hsp]
+
+theorem dfrGo_eq (lang : Lang) (rs re : Nat) (hr : rs < re) : ∀ (f : Nat) (node last : NodeRef),
+    descendantForByteRangePort.go lang rs re true f node last = dfrIdeal lang rs re f node last
+  | 0, _, _ => rfl
+  | f + 1, node, last => by
+    simp only [descendantForByteRangePort.go, dfrIdeal]
+    have hraw : rawChildren lang node = rawChildren.go lang node node.t.data.productionId node.t.kids.length node.t.kids node.start 0 0 := rfl
+    have := dfr_scan_eq rs re hr (rawChildren lang node) node.start.bytes (by rw [hraw]; exact go_startsFrom lang node _ _ _ _ _ _)
+    simp only [dfrScan] at this
+    rw [this]
+    cases (rawChildren lang node).find? (spans rs re) with
+    | none => rfl
+    | some rc => simp only [Option.map_some]; exact dfrGo_eq lang rs re hr f rc.node _
+
+/-- **descendant_for_byte_range_spec_partial.**  For a NON-EMPTY byte range the port of
+`ts_node_descendant_for_byte_range(self, rs, re)` is the plain search `dfrIdeal`: follow the first
+raw child that spans the range (start ≤ rs and re ≤ end) as long as there is one, and answer the last
+relevant node on the way (`self` if none).  For every tree — no hypothesis on the tree is needed,
+the order of the iterator's positions is enough; the empty-range case is where finding
+`C06-descendant-range-zero-width` lives. -/
+theorem descendant_for_byte_range_spec_partial (lang : Lang) (fuel : Nat) (self : NodeRef) (rs re : Nat) (hr : rs < re) :
+    descendantForByteRangePort lang fuel self rs re true = some (dfrIdeal lang rs re fuel self self) := by
+  unfold descendantForByteRangePort
+  have : ¬ (rs > re) := by omega
+  simp only [this, if_false]
+  rw [dfrGo_eq lang rs re hr]
+
+
+/-- On the demo tree, range [1,2]: root ⟶ hidden `h` [1,3] ⟶ `v` [1,2] ⟶ leaf `b` [1,2]; the
+deepest relevant node spanning the range is `b` (slot id 2992). -/
+example : (descendantForByteRangePort C02.demoLang 8 pvRoot 1 2 true).map (·.id) = some 2992 := by
+  rw [descendant_for_byte_range_spec_partial C02.demoLang 8 pvRoot 1 2 (by decide)]
+  decide
+
 end TsVerif.C06
